@@ -29,6 +29,7 @@ func c15(c *eng.Ctx, r *eng.Report) {
 		"R15.10 a panic raised while handling one message ends that message, not the party: the deferred recover() of baseParty.Update neither sends on the party's Err channel nor calls anything that does (ID.Serialize panics on an over-long signer id, which the wire decoder lets through); " +
 		"R15.12 the key a share is verified under is the sender's key in this block's group: every key GetMemberSignPubKey(group, member) returns comes from GetMemberSignPK(member) on the record GetJoinedGroupInfo(group) returned — not from a store keyed by the member alone (a miner sits in several groups with a different share key in each); " +
 		"R15.14 the share sets are fed by the checked path only: outside the generator's own methods the only function that calls AddWitnessSign/addWitnessForce is (*round1).Update, whose two call sites R15.1 decides — a second feeder (a batch path over parked messages that verifies the recovered result instead of each piece) lets one bad piece into the set, and what it leaves behind blocks the honest shares; " +
+		"R15.19 what one parked message says cannot stop the replay of the others: wherever the processor feeds messages parked before the proposal to the party in a loop (waitUntilDone and its closures), no edge leaves that loop on a condition computed from the message being fed — a `return` on a piece whose data hash differs from the block hash drops every honest piece parked behind it; " +
 		"R15.18 shares from non-members are ignored: both AddWitnessSign calls of round1.Update are reached only across the true edge of group.MemExist(signer) for the block's group — the key lookup alone does not say so, because the announcement handler (OnMessageSignPK) stores any self-signed (signer, group, key) triple without asking whether the signer belongs to the group: an outsider announces a key of its own and its share passes every other check (finding F30); " +
 		"R15.17 an id taken from a message can be written back: ID.Serialize panics for a value wider than ID_LENGTH bytes, so (*ID).Deserialize — the only way bytes from the wire become an ID — refuses input longer than ID_LENGTH before it stores it; otherwise one verify message with a 33-byte signer id, parked during the round-0 wait, panics inside round1.Start's replay loop (the first thing round1.Update does is log the signer's hex id), the party's recover swallows it, and the honest pieces the loop had not reached yet are never replayed (finding F29); " +
 		"R15.16 the bytes a share is verified over are the data hash and nothing else of the message: in SignInfo.VerifySign the message handed to groupsig.VerifySig is computed from the field dataHash alone — round 1 compares dataHash with the block's hash, so if another sender-filled field (a version number) selects what was signed, a share over other bytes passes as a share over this block's hash and poisons the recovery set; " +
@@ -56,6 +57,7 @@ func c15(c *eng.Ctx, r *eng.Report) {
 	c15VerifiedBytesAreTheHash(c, r)
 	c15DecodedIdsSerialise(c, r)
 	c15OnlyMembersHaveShares(c, r)
+	c15ReplayVisitsEveryParked(c, r)
 }
 
 // c15Parking: a verify message that arrives before its party exists is parked
@@ -945,4 +947,72 @@ func c15OnlyMembersHaveShares(c *eng.Ctx, r *eng.Report) {
 		}
 		r.Check(member, rule, fmt.Sprintf("round1.Update:member-only#%d", i), c.Pos(add.Pos()), "the share is counted only for a member of the block's group", "round1.Update adds a share to a recovery set without having established that its sender is a member of the block's group: the share key is looked up by (group, signer), and the handler that stores those keys accepts a self-signed announcement from anybody — an outsider's share enters the set under its own id, the set 'recovers' a signature that fails under the group key with threshold-1 honest shares, SignRecovered() latches, the honest shares that follow are refused as duplicates of a finished set, and the valid block never finalises")
 	}
+}
+
+// c15ReplayVisitsEveryParked: see R15.19.
+func c15ReplayVisitsEveryParked(c *eng.Ctx, r *eng.Report) {
+	const rule = "R15.19"
+	r.Min(rule, 1)
+	root := c.Func(logicalPkg, "(*Processor).waitUntilDone")
+	if !r.Anchor(root != nil, rule, "(*Processor).waitUntilDone") {
+		return
+	}
+	var fns []*ssa.Function
+	var collect func(f *ssa.Function)
+	collect = func(f *ssa.Function) {
+		fns = append(fns, f)
+		for _, a := range f.AnonFuncs {
+			collect(a)
+		}
+	}
+	collect(root)
+	n, loops, bad := 0, 0, ""
+	for _, fn := range fns {
+		for _, s := range eng.Sites(fn) {
+			if !strings.HasSuffix(s.Name(), "SignParty).Update") && !strings.HasSuffix(s.Name(), "baseParty).Update") {
+				continue
+			}
+			n++
+			cb := s.Instr.Block()
+			// the cycle through the call's block
+			reach := func(from *ssa.BasicBlock) map[*ssa.BasicBlock]bool {
+				seen := map[*ssa.BasicBlock]bool{}
+				var walk func(b *ssa.BasicBlock)
+				walk = func(b *ssa.BasicBlock) {
+					for _, x := range b.Succs {
+						if !seen[x] {
+							seen[x] = true
+							walk(x)
+						}
+					}
+				}
+				walk(from)
+				return seen
+			}
+			fwd := reach(cb)
+			if !fwd[cb] {
+				continue // not in a loop: one goroutine (or call) per message
+			}
+			loops++
+			inLoop := map[*ssa.BasicBlock]bool{}
+			for b := range fwd {
+				if reach(b)[cb] {
+					inLoop[b] = true
+				}
+			}
+			msg := eng.ResolveLocal(s.Common().Args[len(s.Common().Args)-1])
+			for b := range inLoop {
+				iff, ok := b.Instrs[len(b.Instrs)-1].(*ssa.If)
+				if !ok {
+					continue
+				}
+				for _, x := range b.Succs {
+					if !inLoop[x] && deepDerives(iff.Cond, msg) {
+						bad = eng.Desc(iff.Cond) + " at " + c.Pos(iff.Cond.Pos())
+					}
+				}
+			}
+		}
+	}
+	r.Check(bad == "" && n >= 1, rule, "replay:visits-every-parked", c.Pos(root.Pos()), fmt.Sprintf("%d feed site(s), %d in a loop, no loop exit depends on the message fed", n, loops), "the loop that feeds parked messages to the party can be left on "+bad+", a condition computed from the message being fed: one forged early piece — filed under the block hash, signed over another hash — parked ahead of the honest ones ends the replay, the honest pieces behind it are dropped, and with exactly threshold honest shares the block never finalises on this node")
 }
